@@ -85,7 +85,8 @@ Apply(e) ==
                     r == IF r0.busy THEN [r0 EXCEPT !.out = [i \in 1..Len(r0.out) |-> r0.out[i] @@ [opt |-> TRUE]]] ELSE r0
                     g2 == IF s.st = "w_key" /\ ~r.busy /\ r.s.st = "ask" THEN [gh EXCEPT !.keyok = TRUE]
                           ELSE IF r.s.st = "idle" THEN [gh EXCEPT !.keyok = FALSE] ELSE gh
-                IN St(c, r.s, Push("S", r.out), g2)
+                \* (a busy answer is sent from inside the handler, before anything that is still owed - it goes to the front)
+                IN St(c, r.s, IF r0.busy THEN [pend EXCEPT !["S"] = r.out \o @] ELSE Push("S", r.out), g2)
            ELSE IF e.pgn = PGN_DM16 /\ s.st = "w_eoma" /\ e.sa = s.sa /\ Len(e.data) = 8 /\ e.data[1] = 19
            THEN LET r == SvOnAck(s) IN St(c, r.s, Push("S", r.out), gh)
            ELSE IF e.pgn = PGN_DM16 /\ Len(e.data) >= 2
